@@ -1367,6 +1367,73 @@ def independence_labels(case):
           'L:%d' % case['levels']]
 
 
+# ------------------------------------ explicit thresholds (v_min / v_max given)
+
+@functools.lru_cache(maxsize=None)
+def _threshold_vmapped(q, levels):
+  if q == 'uniform':
+    f = lambda keys, v, lo, hi: jax.vmap(
+        lambda k: C.uniform_stochastic_quantize(v, levels, k, lo, hi))(keys)
+  else:
+    f = lambda keys, v, lo, hi: jax.vmap(
+        lambda k: C.binary_stochastic_quantize(v, k, lo, hi))(keys)
+  return jax.jit(f)
+
+
+def run_thresholds(case):
+  """The documented v_min / v_max thresholds, narrower or wider than the data:
+  every output lies in [v_min, v_max] on the grid between the thresholds, within
+  one step of the input clipped to the thresholds, and its mean over the keys is
+  that clipped input."""
+  q, levels = case['q'], (case['levels'] if case['q'] == 'uniform' else 2)
+  v = np.asarray(case['values'], F32)
+  lo, hi = float(F32(case['lo'])), float(F32(case['hi']))
+  k = case['K']
+  out = np.asarray(_threshold_vmapped(q, levels)(keys_from(case['seed'], k), jnp.asarray(v),
+                                                 F32(lo), F32(hi)), np.float64)
+  require(out.shape == (k, v.size), 'thresholds:output_shape', f'{out.shape}')
+  require(bool(np.isfinite(out).all()), 'thresholds:nonfinite', f'lo={lo} hi={hi}')
+  step = (hi - lo) / (levels - 1)
+  eps = 16 * U * max(abs(lo), abs(hi)) + 2 * TINY + 8 * U * step * (levels - 1)
+  require(bool((out >= lo - eps).all() and (out <= hi + eps).all()),
+          'thresholds:output_outside_the_thresholds',
+          lambda: f'{q} L={levels} thresholds [{lo}, {hi}]: outputs in '
+                  f'[{out.min()!r}, {out.max()!r}] for input {v.tolist()}')
+  c = np.clip(v.astype(np.float64), lo, hi)
+  j = np.rint((out - lo) / step)
+  require(bool((np.abs(out - (lo + j * step)) <= eps).all()), 'thresholds:off_the_grid',
+          lambda: f'{q} L={levels} thresholds [{lo}, {hi}]')
+  require(bool((np.abs(out - c[None, :]) <= step + eps).all()),
+          'thresholds:more_than_one_step_from_the_clipped_input',
+          lambda: f'{q} L={levels} thresholds [{lo}, {hi}] input {v.tolist()}')
+  dev = np.abs(out.mean(axis=0) - c)
+  tol = hoeffding_t(step + 2 * eps, k) + eps
+  require(bool((dev <= tol).all()), 'thresholds:mean_differs_from_the_clipped_input',
+          lambda: f'{q} L={levels} thresholds [{lo}, {hi}]: mean {out.mean(axis=0).tolist()} '
+                  f'vs clipped input {c.tolist()} (tol {tol!r})')
+  return []
+
+
+@st.composite
+def thresholds_case(draw, tier):
+  q = draw(st.sampled_from(['uniform', 'uniform', 'binary']))
+  n = draw(st.sampled_from([3, 8, 64]))
+  vals = [draw(DYADIC) for _ in range(n)]
+  lo8 = draw(st.integers(-72, 56))          # thresholds in eighths, -9 .. 7
+  width8 = draw(st.sampled_from([1, 2, 8, 16, 40, 144]))
+  return {'q': q, 'levels': draw(st.sampled_from([2, 3, 4, 5, 16, 64])), 'values': vals,
+          'lo': lo8 / 8.0, 'hi': (lo8 + width8) / 8.0, 'seed': draw(SEEDS),
+          'K': 2000 if tier == 'quick' else 8000}
+
+
+def thresholds_labels(case):
+  v = np.asarray(case['values'])
+  ls = ['q:' + case['q']]
+  ls.append('data_beyond_thresholds' if (v.min() < case['lo'] or v.max() > case['hi'])
+            else 'thresholds_wider_than_data')
+  return ls
+
+
 # ------------------------------- binary quantizer on bfloat16 / float16 inputs
 
 @functools.lru_cache(maxsize=None)
@@ -1438,6 +1505,14 @@ CHECKS = [
           doc='statistical: mean over K keys equals the input per coordinate '
               'within the Hoeffding bound step*sqrt(20/K) (false alarm 8.5e-18 '
               'per coordinate)'),
+    Check(name='explicit_thresholds', run=run_thresholds, strategy=thresholds_case,
+          labels=thresholds_labels,
+          nontrivial=lambda c, ls: 'data_beyond_thresholds' in ls,
+          budget={'quick': 96, 'thorough': 960}, time_share=0.8,
+          doc='uniform / binary quantizer called with the documented v_min / v_max '
+              'thresholds (narrower or wider than the data): outputs inside the '
+              'thresholds, on their grid, within one step of the clipped input, '
+              'unbiased for the clipped input'),
     Check(name='binary_low_precision_inputs', run=run_binary_low_precision,
           strategy=binary_low_precision_case,
           labels=lambda c: ['dtype:' + c['dtype'], 'position:2^-%d' % c['j']],
